@@ -28,6 +28,7 @@ RULE = ("Hypothesis draws 1-3 identity-encoding tomograms (voxel = t*10^6 + z*10
         "modified, groups partition their parent and can be iterated repeatedly. Non-trivial = an order-changing or "
         "id-interleaving step on a batch with >= 2 tomograms followed by a per-molecule observation, or a derived "
         "group consumed twice.")
+RULE += (" " + 'Also: load with index lists / numpy index arrays in any order (repeats, negative entries) and stepped slices at every step, add_tomogram with an image id that is already in use (must be rejected), group.apply tables, unseeded group.sample iterated twice and aligned.')
 TOLERANCES = {"decoding": "exact (integers < 2^24 in float32)", "differential": "bitwise / 1e-6 relative"}
 ASSUMPTIONS = ["add_tomogram / add_loader are construction steps on a fresh BatchLoader (they are documented to mutate it)"]
 
